@@ -48,6 +48,30 @@ func checkC20(c Node) Verdict {
 			return fail("vars", sqls, sig, "caller's variable map after query %d: want %s got %s", i+1, Canon(wv), Canon(any(vars)))
 		}
 	}
+	// the same single statement with an ORDER BY on a source column that is not projected (whose order is the reverse
+	// of the source order): evaluation order is still source order - the map ends up the same, the rows are the same rows
+	if len(prog) == 1 && num(prog[0].(Node)["lim"]) < 0 {
+		qn := prog[0].(Node)
+		vars2 := FromTagged(c["vars0"]).(map[string]any)
+		rows := FromTagged(qn["tbl"]).([]any)
+		for i, r := range rows {
+			r.(map[string]any)["zz"] = float64(-i)
+		}
+		sql := Style{}.Query(varsQuery(qn)) + " ORDER BY zz"
+		out := Run(map[string]any{"t": rows}, sql, false, Opts(nil, vars2, nil)...)
+		v.Execs++
+		want := results[0].(Node)
+		osig := append(append([]string{}, sig...), "orderby-unprojected")
+		if out.Panic != nil || out.Err != nil {
+			return fail("error", sql, osig, "%s", out.Describe())
+		}
+		if wr, _ := FromTagged(want["rows"]).([]any); canonBag(out.Rows) != canonBag(wr) {
+			return fail("result", sql, osig, "rows (as a multiset): want %s got %s", Canon(any(wr)), Canon(any(out.Rows)))
+		}
+		if wv := FromTagged(want["vars"]); !Equal(any(vars2), wv) {
+			return fail("vars", sql, osig, "caller's variable map: want %s got %s", Canon(wv), Canon(any(vars2)))
+		}
+	}
 	return v
 }
 
